@@ -121,7 +121,8 @@ func c17DBs() []c17DB {
 		{Name: "ties12", Cmds: uIdentical(12)},
 		{Name: "forty", Cmds: uForty()},
 		{Name: "linuxonly", Cmds: []Cmd{{Command: "frobnicate --all", Description: "Frobnicate every widget", Keywords: []string{"frob"}, Platform: []string{"linux"}},
-			{Command: "qzx list", Description: "List widgets", Keywords: []string{"widgets"}, Platform: []string{"linux"}}}},
+			{Command: "qzx list", Description: "List widgets", Keywords: []string{"widgets"}, Platform: []string{"linux"}},
+			{Command: "pkg_frob -a", Description: "Frobnicate widgets the BSD way", Keywords: []string{"frob", "widgets"}, Platform: []string{"bsd"}}}},
 		{Name: "damaged", Raw: "- command: \"unterminated\n  description: x\n"},
 		{Name: "missing", Miss: true},
 	}
@@ -298,6 +299,10 @@ func (s c17SearchSpec) build(env *cliEnv) (cs c17Case, dbPath string, platforms 
 	case "linux":
 		args = append(args, "-p", "linux")
 		platforms = []string{"linux"}
+	case "bsd":
+		// a platform name outside linux / macos / windows: it is what the user asked for, not the host
+		args = append(args, "-p", "bsd")
+		platforms = []string{"bsd"}
 	case "windows-nocross":
 		args = append(args, "-p", "windows", "--no-cross-platform")
 		platforms, noCross = []string{"windows"}, true
@@ -410,7 +415,7 @@ func c17Specs(thorough bool) []c17SearchSpec {
 		limits := []string{"", "0", "1", "3", "100", "101", "-1"}
 		formats := []string{"", "table", "json", "JSON", "xml"}
 		colors := []string{"", "--no-color", "NO_COLOR"}
-		plats := []string{"", "linux", "windows-nocross", "all", "nocross"}
+		plats := []string{"", "linux", "windows-nocross", "all", "nocross", "bsd"}
 		if db.Raw != "" || db.Miss {
 			// both end in the built-in fallback list (a damaged file costs 0.3 s of real back-off per run): reduced product
 			limits, formats, colors, plats = []string{"", "1", "101"}, []string{"", "json"}, []string{"", "--no-color"}, []string{"", "all"}
@@ -540,7 +545,7 @@ func c17Run(c *lib.Ctx) {
 func init() {
 	lib.Register(&lib.Check{
 		ID: "C17", Level: "model_checking",
-		Rule:      "(a) every sub-command form {search, root, pipeline, save, save-pipeline, history (+--stats/--top/--clear), alias, alias add/list/remove, setup, wizard, help, --version, --help, completion bash} x every argument vector of <=2 (quick) / <=3 (thorough) atoms from {word, phrase, -x, --, empty string, 1001 bytes, shell metacharacters, number, --limit, tar, --format=json, --limit=-1}, stdin empty, the history forms both with no history and with five recorded searches, + wizard tar/find/ffmpeg/unknown with 7 scripted answer streams: the real binary in an isolated home must finish with exit 0 or 1, without panic, signal or time-out. (b) the FULL product of 3 databases (2 entries + one whose command, description, keyword and category contain '%' and one whose texts are long in bytes but short in characters, 12 equal-scoring entries, 40 entries) [plus a linux-only database with 3 typo queries, for which excluding platform flags leave no result but 'did you mean' suggestions] [and a reduced product - limit {absent,1,101} x format {absent,json} x -v x {colour, --no-color} x {none, -a} - for a damaged and a missing database file, which both end in the built-in list] x 10 queries (lexical, NLP-only, typo-fallback, recovery-only, no hit, metacharacter, 1001 bytes, case/white-space variant ...) x --limit {absent,0,1,3,100,101,-1} x --format {absent,table,json,JSON,xml} x -v x {colour, --no-color, NO_COLOR} x platform flags {none, -p linux, -p windows --no-cross-platform, -a, --no-cross-platform alone} = 31,500 + 960 runs of the real binary (+ a preceding run for two thirds of them), each compared with the engine driven in-process through the same exported functions with the options the CLI constructs: same entries in the same order, count <= limit in force, JSON block parses with one object per result, no ESC byte when colour is off, history file parses with this query newest and the right length and result count; rejected requests neither search nor record. non-trivial = searches that print results",
+		Rule:      "(a) every sub-command form {search, root, pipeline, save, save-pipeline, history (+--stats/--top/--clear), alias, alias add/list/remove, setup, wizard, help, --version, --help, completion bash} x every argument vector of <=2 (quick) / <=3 (thorough) atoms from {word, phrase, -x, --, empty string, 1001 bytes, shell metacharacters, number, --limit, tar, --format=json, --limit=-1}, stdin empty, the history forms both with no history and with five recorded searches, + wizard tar/find/ffmpeg/unknown with 7 scripted answer streams: the real binary in an isolated home must finish with exit 0 or 1, without panic, signal or time-out. (b) the FULL product of 3 databases (2 entries + one whose command, description, keyword and category contain '%' and one whose texts are long in bytes but short in characters, 12 equal-scoring entries, 40 entries) [plus a linux-only database with 3 typo queries, for which excluding platform flags leave no result but 'did you mean' suggestions] [and a reduced product - limit {absent,1,101} x format {absent,json} x -v x {colour, --no-color} x {none, -a} - for a damaged and a missing database file, which both end in the built-in list] x 10 queries (lexical, NLP-only, typo-fallback, recovery-only, no hit, metacharacter, 1001 bytes, case/white-space variant ...) x --limit {absent,0,1,3,100,101,-1} x --format {absent,table,json,JSON,xml} x -v x {colour, --no-color, NO_COLOR} x platform flags {none, -p linux, -p windows --no-cross-platform, -a, --no-cross-platform alone, -p bsd (a name outside the usual three; the linux-only database also has a bsd entry)} = 37,800 + 960 runs of the real binary (+ a preceding run for two thirds of them), each compared with the engine driven in-process through the same exported functions with the options the CLI constructs: same entries in the same order, count <= limit in force, JSON block parses with one object per result, no ESC byte when colour is off, history file parses with this query newest and the right length and result count; rejected requests neither search nor record. non-trivial = searches that print results",
 		Assume:    []string{"isolated HOME / XDG_CONFIG_HOME and an empty working directory (context = generic, no boosts)", "printed commands are single-line (test databases)", "the in-process engine runs with map order pinned; the binary with the runtime's order (equal by C02)"},
 		QuickSecs: 400, ThorSecs: 1800,
 		Run: c17Run,
